@@ -47,21 +47,22 @@ type refVT struct {
 	shifted bool
 
 	// modes
-	alt, cursorVis, keypad, autowrap             bool
-	m1000, m1002, m1003, m1006, m2004, m1004     bool
-	cursorShape                                  int
-	cursorColorSet                               bool
-	cursorColor                                  int
-	titleDepth                                   int
-	title                                        string
-	savedTitle                                   []string
-	scrolled, wrapped                            bool
-	clears                                       int
-	beeps                                        int
-	clip                                         string
-	winW, winH                                   int
-	savedX, savedY                               int
-	insertMode                                   bool
+	alt, cursorVis, keypad, autowrap         bool
+	appCursor, m4                            bool
+	m1000, m1002, m1003, m1006, m2004, m1004 bool
+	cursorShape                              int
+	cursorColorSet                           bool
+	cursorColor                              int
+	titleDepth                               int
+	title                                    string
+	savedTitle                               []string
+	scrolled, wrapped                        bool
+	clears                                   int
+	beeps                                    int
+	clip                                     string
+	winW, winH                               int
+	savedX, savedY                           int
+	insertMode                               bool
 }
 
 func newRefVT(w, h int, width func(rune) int) *refVT {
@@ -454,6 +455,10 @@ func (t *refVT) csi(b []byte, i int) int {
 		on := f == 'h'
 		for k := range ps {
 			switch p(k, -1) {
+			case 1:
+				t.appCursor = on // DECCKM: some descriptions' keypad mode is just this
+			case 4:
+				t.m4 = on // (beterm's keypad string)
 			case 7:
 				t.autowrap = on
 			case 25:
